@@ -89,13 +89,25 @@ theorem link_binds_spec (p : GProg) (fuel m : Nat) (e : TExpr) (σ σ' : St) (lt
 `compile.Compile` / `CompileWithLinkOrder` under ANY visit orders `o` (and any fuel), every
 typedef root the linker has stored is the declarative root. *Partial*: a typedef can also be
 left with a nil root — only by re-entrant linking (D10, `link_order_dependent`) — and nothing
-is claimed about such a typedef; constants and defaults are tied to `castConst` by
-the correspondence harness, not by this theorem. With D10 repaired every root is non-nil and
+is claimed about such a typedef; the linked *values* of constants and defaults are tied to
+`castConst` by the correspondence harness (every generated program, every order), not by a
+theorem — the proof would need the static NoConstCycle argument that no constant is read
+while it is being linked (the ghost flag `St.reent` marks exactly those reads). With D10 repaired every root is non-nil and
 the hypothesis `alookup … = some (some r)` is always met. -/
 theorem link_refines_spec_partial {pre : Bool} {fuel : Nat} {o : Orders} {src : Program} {c : Compiled}
     (h : compileWith pre fuel o src = .ok c) :
     ∀ m n r, alookup (m, n) c.st.root = some (some r) → IsRoot c.prog (.named m n) r :=
   compile_roots_sound h
+
+/-- **Parent services are bound as the spec designates, for every visit order.** After a
+successful compilation every stored `ServiceSpec.Parent` is the service the declared parent
+name resolves to (a service of that name in the same file, else the include-qualified one). -/
+theorem link_parents_spec {pre : Bool} {fuel : Nat} {o : Orders} {src : Program} {c : Compiled}
+    (h : compileWith pre fuel o src = .ok c) :
+    ∀ m n pk, alookup (m, n) c.st.vpar = some pk →
+      ∃ s pname, lookupService c.prog m n = some s ∧ s.parent = some pname ∧
+        resolveService c.prog m pname = some pk :=
+  compile_parents_sound h
 
 theorem compileWith_prog {pre : Bool} {fuel : Nat} {o : Orders} {src : Program} {c : Compiled}
     (h : compileWith pre fuel o src = .ok c) : gather src = some c.prog := by
